@@ -428,8 +428,8 @@ func RunC05Pure(ctx *core.Ctx) {
 		b.flush()
 		return
 	}
-	workers := 8
-	total := ctx.Scale(64000, 1600000)
+	workers := 16
+	total := ctx.Scale(64000, 800000)
 	var wg sync.WaitGroup
 	for w := 0; w < workers; w++ {
 		wg.Add(1)
